@@ -129,6 +129,8 @@ def queries(tier):
             addp(fill(sl, n))
     for n in lens(4 if th else 3, 1):
         addp(['pkg:t/n?checksum=', ('hole', 'h', n)])
+    for parts in STRUCT_TEMPLATES(deep) + LONG_TEMPLATES():
+        addp(parts)
     for n in lens(5 + deep):
         for steps in ([], [('with_namespace', 'ns'), ('with_version', '1'), ('with_qualifier', 'K', 'v'), ('with_subpath', 's')]):
             qs.append(Query('build String|Cow|SmallString type=⟦%d⟧ %s' % (n, 'full' if steps else 'minimal'), h_builder, {'n': n, 'steps': steps},
